@@ -188,6 +188,41 @@ fn run_case<G: AffineRepr + RefGens>(big: &Big<G>, curve: &str, pinned: &serde_j
                                 }
                             }
                         }
+                        // positional adaptors on a partially consumed view (nth / skip / step_by)
+                        if which == 0 && want.len() >= 3 {
+                            let got = guarded(|| {
+                                let mut out: Vec<(String, bool)> = vec![];
+                                for pre in [0usize, 1, 2, n.saturating_sub(1)] {
+                                    for k in [0usize, 1, n.saturating_sub(1), n, n + 1, 2 * n + 1] {
+                                        let mut it = g.G(n, m);
+                                        for _ in 0..pre {
+                                            it.next();
+                                        }
+                                        let a = it.nth(k).copied();
+                                        let b = want.get(pre + k).copied();
+                                        out.push((format!("after {} next(): nth({})", pre, k), a == b));
+                                    }
+                                }
+                                let s: Vec<G> = g.G(n, m).skip(n + 1).step_by(3).cloned().collect();
+                                let w: Vec<G> = want.iter().skip(n + 1).step_by(3).cloned().collect();
+                                out.push(("skip(n+1).step_by(3)".into(), s == w));
+                                out
+                            });
+                            match got {
+                                Ok(v) => {
+                                    if let Some((what, _)) = v.iter().find(|(_, ok)| !*ok) {
+                                        o.violate("view-positional", format!("G({}, {}) {} returns an element that is not the one at that position of the party-major list", n, m, what), ctxj(what.clone()));
+                                    } else {
+                                        o.count("views: nth/skip/step_by agree with the list", 1);
+                                    }
+                                }
+                                Err((loc, msg)) => {
+                                    if !is_harness_loc(&loc) {
+                                        o.violate("view-positional-panic", format!("positional adaptor on G({}, {}) panicked at {}: {}", n, m, loc, msg), ctxj(String::new()));
+                                    }
+                                }
+                            }
+                        }
                         // collect() as a user would
                         if which == 0 {
                             let r = guarded(|| g.G(n, m).cloned().collect::<Vec<G>>().len());
@@ -358,7 +393,7 @@ fn cases(ctx: &Ctx, curve: &str, big_n: usize, big_m: usize) -> Vec<Case> {
 }
 
 fn run_curve<G: AffineRepr + RefGens>(ctx: &Ctx, curve: &'static str, only: Option<&Case>) -> Agg {
-    let (n, m) = (ctx.tier.pick(256, 1024), 6);
+    let (n, m) = (ctx.tier.pick(600, 1100), 6);
     let g = BulletproofGens::<G>::new(n, m);
     let t = match tables(&g) {
         Some(t) => t,
